@@ -182,7 +182,13 @@ def run(rep, tier):
         rep.coverage['combinations'] = ncombo
         # ---- RENDER: separator structure of the text for bounded documents (extracted machines composed)
         from props import c14m
-        c14m.render_clause(rep, mod, tier)
+        try:
+            c14m.render_clause(rep, mod, tier)
+        except AnalysisBroken as e:
+            if not rep.violations:
+                raise
+            rep.assumptions.append('RENDER clause not evaluated on this tree: %s' % e)
+            print('NOTE C14 RENDER clause not evaluated: %s' % e)
     rep.coverage.update({
         'rule': 'for each (token kind x separator state x in-array) the two callbacks, abstractly evaluated with everything else unconstrained, '
                 'emit the same sequence of (format string, argument provenance) and reach the same separator state',
